@@ -50,6 +50,29 @@ CHECKS = {
             "Oracle: brute-force search written in vlib/refsem.py (shares no code with amaranth). "
             "Warnings are not judged.",
             "DESIGN.md §4 C10"),
+    "C12": ("model_checking",
+            "explicit-state breadth-first enumeration of the implementation's complete reachable state graph in the simulator "
+            "(generated inputs at every state) + Hypothesis-generated strobe walks, both judged by a deque monitor",
+            "For small depths/widths the COMPLETE reachable state graph of the real SyncFIFO / SyncFIFOBuffered (every signal and "
+            "memory row of the elaborated design, saved/restored in the simulator) is explored with every input combination "
+            "at every state, and a bounded-queue monitor (deque + age counter) checks order, no loss/duplication, r_rdy/r_data, "
+            "w_rdy safety and liveness, all three level outputs, and the two-cycle readability bound on every transition. "
+            "Larger depths/widths are covered by generated strobe walks with bursts. Exhaustive where the space is finite "
+            "and small, sampled beyond; right for a refinement property whose bugs are pointer/level corner cases at "
+            "wrap-around, full and empty, which the small graphs contain in full.",
+            "Monitor in vchecks/c12.py. Snapshots use the simulator's engine._state.slots (checked at run time). No reset "
+            "during exploration.",
+            "DESIGN.md §4 C12"),
+    "C13": ("model_checking",
+            "explicit-state enumeration of the reachable state graph under {write edge, read edge, both} x inputs + "
+            "Hypothesis-generated clock-interleaving walks with drain phase + exhaustive depth sweep for elaboration",
+            "The harness owns both clocks, so every interleaving (incl. coincident edges) is a generated event sequence. "
+            "Complete reachable graphs for the smallest AsyncFIFO/AsyncFIFOBuffered configurations (state cap reported "
+            "if hit), long generated walks with one-clock bursts for larger ones, each ending in a drain phase that "
+            "must deliver every written entry within a bound; every depth 0..40 x exact_depth must either be refused "
+            "by the constructor or elaborate, simulate and convert.",
+            "Monitor in vchecks/c13.py; inputs never change in the same instant as an edge.",
+            "DESIGN.md §4 C13"),
 }
 
 TITLES = {}
